@@ -567,6 +567,10 @@ func init() {
 									if nAll+nType >= 1 && failAt == 0 {
 										jobs = append(jobs, J(sessPkg, "H_C19_send", nAll, nType, order, failAt, kind, 1, 1))
 									}
+									if nAll >= 1 && order <= 1 {
+										// the application removes its first all-types handler again
+										jobs = append(jobs, J(sessPkg, "H_C19_send", nAll, nType, order, failAt, kind, 1+failAt%2, 0, 1))
+									}
 								}
 							}
 							for kind := 0; kind < 8; kind += 3 {
